@@ -58,7 +58,7 @@ type vProbeOutcome struct {
 }
 
 type vProbeScript struct {
-	outcomes []vProbeOutcome
+	outcomes  []vProbeOutcome
 	next      int
 	parkAfter bool // after the script: park the probe loop (bounded exploration) instead of repeating the last outcome
 }
@@ -153,7 +153,7 @@ type vProxyPlan struct {
 
 var vProxyPlans = map[int]*vProxyPlan{} // by request number
 var vOpenCtx = map[int]context.Context{}
-var vOpenEnded = map[int]bool{}         // requests currently parked at a target that never answers / an upgraded connection
+var vOpenEnded = map[int]bool{} // requests currently parked at a target that never answers / an upgraded connection
 
 // vClientsSettled: every client has its response or is parked at a never-answering target / upgraded connection.
 func vClientsSettled(n int) bool {
@@ -167,6 +167,7 @@ func vClientsSettled(n int) bool {
 	}
 	return true
 }
+
 var vReqNumber = map[*http.Request]int{}
 var vReqKey = contextKey("verif-request-number")
 
@@ -346,27 +347,19 @@ func stubGetWaitStateTraced(p *PauseController) (PauseState, string, chan bool, 
 	return st, msg, ch, fail
 }
 
-// the instants at which pause / stop / resume take effect (emitted atomically with the state change)
-//
-//verif:stub (*github.com/basecamp/kamal-proxy/internal/server.PauseController).Pause harness=HarnessDrainQuiescent,HarnessDrainQuiescentDirected,HarnessPauseHold,HarnessPauseHoldDirected,HarnessCmdMix
-func stubPauseTraced(p *PauseController, failAfter time.Duration) error {
-	vAtomicBegin()
-	err := p.Pause(failAfter)
-	vEmit(vEvent{kind: "pause_effective"})
-	vAtomicEnd()
-	return err
-}
-
-//verif:stub (*github.com/basecamp/kamal-proxy/internal/server.PauseController).setState harness=HarnessDrainQuiescent,HarnessDrainQuiescentDirected,HarnessPauseHold,HarnessPauseHoldDirected,HarnessCmdMix
-func stubSetStateTraced(p *PauseController, newState PauseState, message string) {
-	vAtomicBegin()
-	p.setState(newState, message)
-	if newState == PauseStateStopped {
-		vEmit(vEvent{kind: "stop_effective"})
-	} else {
-		vEmit(vEvent{kind: "resume_effective"})
-	}
-	vAtomicEnd()
+// the instants at which pause / stop / resume take effect: observed at the store to PauseController.State itself, so
+// that Pause, Resume and Stop run unwrapped and every interleaving inside them stays visible to the scheduler
+func vWatchPauseEvents() {
+	vWatchStore("server.PauseController.State", func(obj any) {
+		switch obj.(*PauseController).State {
+		case PauseStatePaused:
+			vEmit(vEvent{kind: "pause_effective"})
+		case PauseStateStopped:
+			vEmit(vEvent{kind: "stop_effective"})
+		default:
+			vEmit(vEvent{kind: "resume_effective"})
+		}
+	})
 }
 
 func vIndexOf(kind string, req int) int {
